@@ -133,6 +133,46 @@ def run(ck, facts, tier):
                              "round-trips to a different program" % (a, nt, item, datum))
     ck.floor(R, "item-attribute-pairs", n_inst, 17)
 
+    # ------------------------------------------------------------------ ATTR-ORDER
+    R = "C22.ATTR-ORDER"
+    ck.rule(R, "K5: the grammar accepts an item's attributes only in the fixed order of its production; the item's writer emits the "
+               "attributes it knows in that same relative order (first emission of `#[a` precedes first emission of `#[b` whenever "
+               "a's nonterminal precedes b's in the production) - otherwise an item carrying both prints as text the parser rejects")
+    n_pairs = 0
+    for item, datum in ITEM_WRITER.items():
+        alts = rules.get(item)
+        wb = facts.body(RENDER % datum)
+        if not alts or wb is None:
+            continue
+        texts = writer_texts(facts, wb)
+
+        def first_pos(a):
+            for i, t in enumerate(texts):
+                j = t.find("#[%s" % a)
+                if j >= 0:
+                    return (i, j)
+            return None
+        for alt in alts:
+            seq = []
+            for nt in alt.nonterminals:
+                if nt in attr_nts:
+                    for a in sorted(attr_nts[nt]):
+                        pos = first_pos(a)
+                        if pos is not None:
+                            seq.append((nt, a, pos))
+            for (nt1, a1, p1), (nt2, a2, p2) in zip(seq, seq[1:]):
+                if nt1 == nt2:
+                    continue
+                n_pairs += 1
+                inst = "%s:#[%s]<#[%s]" % (item, a1, a2)
+                if p1 < p2:
+                    ck.ok(R, inst)
+                else:
+                    ck.violation(R, inst, wb.where(), "the grammar requires `#[%s..]` before `#[%s..]` on %s but the writer emits them the other way "
+                                 "round: an item with both attributes does not reparse" % (a1, a2, item))
+            break
+    ck.floor(R, "ordered-attribute-pairs", n_pairs, 10)
+
     # ------------------------------------------------------------------ FIELD-COVERAGE
     R = "C22.FIELD-COVERAGE"
     ck.rule(R, "K2: every field of a rendered datum (and of its flag structs, checked by the write_flags! destructuring) is "
